@@ -100,8 +100,8 @@ func (r *Ref) ends(e *Expr, i int) bits {
 		}
 	case KOpt:
 		out = r.ends(e.Kids[0], i) | 1<<uint(i)
-	case KSuppress:
-		out = r.ends(e.Kids[0], i)
+	case KSuppress, KSingle:
+		out = r.ends(e.Kids[0], i) // (Single with an operand that never returns a result and an error together)
 	case KLTrim:
 		// the whole whitespace run is skipped; the match counts only when the run satisfies the mode
 		if j, ok, _, _ := judgeRun([]byte(r.in), i, e.Mode); ok {
@@ -299,8 +299,8 @@ func (t *TreeRef) trees(e *Expr, i int) TreeSet {
 		out[fmt.Sprintf("EMPTY@%d", i)] = i
 	case KSuppress:
 		out = t.trees(e.Kids[0], i)
-	case KLTrim, KRTrim:
-		t.Capped = true // trimming is modelled on the span level only
+	case KLTrim, KRTrim, KSingle:
+		t.Capped = true // trimming and Single are modelled on the span level only
 	default:
 		t.seqTrees(e, 0, i, i, nil, out)
 	}
